@@ -23,7 +23,9 @@ func (s ExploreRecursiveEdge) Interests() []datamodel.PathSegment {
 
 // Explore should ultimately never get called for an ExploreRecursiveEdge selector
 func (s ExploreRecursiveEdge) Explore(n datamodel.Node, p datamodel.PathSegment) (Selector, error) {
-	panic("Traversed Explore Recursive Edge Node With No Parent")
+	// An edge that no enclosing ExploreRecursive has replaced (e.g. one sitting directly in a
+	// union at the top of the sequence, or left over once the depth limit is used up) selects nothing.
+	return nil, nil
 }
 
 // Decide should almost never get called for an ExploreRecursiveEdge selector
